@@ -3,6 +3,11 @@
 HOOK_COMMITS = ["ed224dc", "bc3b859", "c46a242"]
 
 ENGINES = [
+    {"name": "tlv", "path": "specs/RoughTlv.tla specs/TlvMC.tla specs/TlvTrace.tla lib/engines/tlv.py harness/src/tlv.rs",
+     "serves_properties": ["C11", "C12"],
+     "kind_free_text": "pure TLA+ definition of the Roughtime TLV layout (Accepts / Pairs / Encode / size limits in limbs) + "
+     "transcription of MessageView's accessors; TLC design MC over all header shapes and small pair lists; the same domains "
+     "executed on the real MessageView / MessageWrapper; TLC trace validation"},
     {"name": "readn", "path": "specs/ReadN.tla specs/ReadNMC.tla specs/ReadNTrace.tla lib/engines/readn.py harness/src/readn.rs",
      "serves_properties": ["C17"],
      "kind_free_text": "TLA+ declared result of read_n vs transcribed retry loop (TLC, all scripts within bounds); every "
@@ -58,7 +63,36 @@ PIPE_NOTE = ("Conformance level: every event of seeded random histories (400 x 6
              "comparison still applies). A process death of the harness (abort on an unsafe-precondition check, segfault) in a run is "
              "recorded as a violation of C05 for that run.")
 
+TLV_NOTE = ("Bounded: all byte strings of <= 4 (5) words over 10 word values (0,1,2,3,4,8,12,65536,2^29,2^32-1) with 0..3 trailing bytes; "
+            "all lists of <= 3 (4) pairs over 3 tags x 4 value lengths; beyond that random strings / nested messages / long lists. "
+            "Words are compared as 16-bit halves and lengths as 20-bit limbs because TLC integers are 32-bit. The pair-count limit "
+            "(> 2^31 pairs) is not exercised. Values that only report a length (never written) are used for the i32::MAX boundaries.")
+
 CHECKS = {
+    "C11": {
+        "engine": "tlv",
+        "technique": "TLA+ layout definition + TLC model checking of Encode lemmas; enumerated pair lists executed on the real MessageWrapper and TLC-validated",
+        "text": "RoughTlv.tla defines Encode (count, N-1 cumulative offsets, stably sorted tags, values), EncLen and the i32::MAX limits; TLC "
+                "checks Accepts(Encode(p)), Pairs(Encode(p)) = SortStable(p) and |Encode(p)| = EncLen(p) for all small lists. Every list of "
+                "<= 3 (4) pairs x constructors new / new_from_slice / new_from_sorted x Cow borrowed/owned, nested messages, 21..100-pair "
+                "lists with ties, through OwningIovec, a dyn ZeroCopySink and an HCOBS Encoder->Decoder, is executed; TLC compares emitted "
+                "bytes, rough_tlv_len, the constructor verdict (only new_from_sorted rejects, exactly decreasing tags), the pairs read back "
+                "through iteration / indexing / lookup, and the size-limit verdicts at i32::MAX-3..+3 for 1..4 pairs.",
+        "design_ref": "DESIGN.md section 6, C11/C12",
+        "note": TLV_NOTE,
+    },
+    "C12": {
+        "engine": "tlv",
+        "technique": "TLA+ layout definition + TLC model checking of transcribed accessors; TLC-enumerated byte strings executed on the real MessageView and TLC-validated",
+        "text": "Accepts(bytes) and Pairs/Value/Lookups are pure TLA+ definitions; TLC checks the transcribed get_value/get/iter against "
+                "them on every byte string of the header-shape domain (finding F3 is the counterexample <<0,0,0,0>> with the pre-fix "
+                "transcription). The same domain plus random / truncated / corrupted strings is fed to the real MessageView::new; for "
+                "every string TLC checks the verdict, no panic, and on accepted messages: len/is_empty, tags, iteration = layout, values "
+                "tile the payload, get/get_value(i) for i < N agree and for N..N+2 and usize::MAX yield nothing, find/find_tag for 5 probe "
+                "tags and every present tag return a value stored under exactly that tag, tags_match_exactly, re-encoding.",
+        "design_ref": "DESIGN.md section 6, C11/C12",
+        "note": TLV_NOTE,
+    },
     "C17": {
         "engine": "readn",
         "technique": "TLA+ spec + TLC model checking of the transcribed retry loop; every enumerated configuration replayed and TLC-validated on five entry points",
